@@ -15,6 +15,7 @@ type State struct {
 	mem  map[int]Value
 	pc   []*Term
 	res  map[string]Value // named results of the contract at a return
+	ghost map[string]Value // ghost names bound by `let` clauses
 }
 
 func newState() *State {
@@ -34,6 +35,12 @@ func (s *State) fork() *State {
 		n.res = map[string]Value{}
 		for k, v := range s.res {
 			n.res[k] = v
+		}
+	}
+	if s.ghost != nil {
+		n.ghost = map[string]Value{}
+		for k, v := range s.ghost {
+			n.ghost[k] = v
 		}
 	}
 	return n
@@ -125,6 +132,7 @@ type Exec struct {
 	noOverflowObl bool
 	trivial   int
 	globalPC  []*Term
+	usedLemmas map[string]bool
 }
 
 // frame: one (possibly inlined) function activation.
@@ -152,6 +160,18 @@ func (x *Exec) alloc() int {
 func (x *Exec) addObl(kind, name string, st *State, goal *Term, where string) {
 	if goal.IsTrue() {
 		x.trivial++
+		return
+	}
+	if goal.Op == "and" && (kind == "post" || kind == "inv" || kind == "lemma") && len(goal.Args) <= 16 {
+		for i, g := range goal.Args {
+			x.addObl(kind, fmt.Sprintf("%s.c%d", name, i+1), st, g, where)
+		}
+		return
+	}
+	if goal.Op == "=>" && goal.Args[1].Op == "and" && (kind == "post" || kind == "inv" || kind == "lemma") && len(goal.Args[1].Args) <= 16 {
+		for i, g := range goal.Args[1].Args {
+			x.addObl(kind, fmt.Sprintf("%s.c%d", name, i+1), st, Implies(goal.Args[0], g), where)
+		}
 		return
 	}
 	full := x.Name + "#" + name
@@ -461,6 +481,18 @@ func mergeStates(base *State, outs []*State) (res *State) {
 			}
 			if !sameValue(v, w) {
 				acc.mem[k] = mergeVal(g, v, w)
+			}
+		}
+		if acc.ghost != nil {
+			for k, w := range acc.ghost {
+				v, ok := o.ghost[k]
+				if !ok {
+					delete(acc.ghost, k)
+					continue
+				}
+				if !sameValue(v, w) {
+					acc.ghost[k] = mergeVal(g, v, w)
+				}
 			}
 		}
 		if o.res != nil && acc.res != nil {
